@@ -393,7 +393,7 @@ MOVES = {          # how the state s1 differs from the primed state s0
 # Note on entropy: the ideal-mixture entropy contains log(x_i); `log` is uninterpreted in the engine (only
 # log(a/b) = log a - log b is applied).  A memo *hit* on S after the flows were rescaled compares log(n_i) with
 # log(k n_i) - log k terms, which the solver cannot identify (spurious counter-models that do not replay natively).
-# S is therefore never *primed* before an operation that rescales the flows; it is read at the end of every
+# S is therefore never *primed* before an operation that changes the flows; it is read at the end of every
 # history, and the memo logic under check does not depend on the property name.
 
 def getprop_configs(tier):
@@ -407,7 +407,7 @@ def getprop_configs(tier):
         for prime in primes:
             for mv in moves:
                 if not prime and mv != 'same': continue
-                if 'S' in prime and mv in ('total', 'all'): continue    # see note on entropy below
+                if 'S' in prime and mv in ('total', 'all', 'comp'): continue    # see note on entropy below
                 if (tier == 'thorough' or mv in ('same', 'all', 'T', 'comp')) and len(prime) <= 1:
                     firsts = PRIMARY
                 else:
